@@ -18,7 +18,8 @@ ASSUMPTIONS = [
     "and on every reported violation",
 ]
 SPEC = {
-    'quick': [('K0', 'small', 4),
+    'quick': [('K21', 'lend', 4),
+              ('K0', 'small', 4),
               ('K1', 'ar', 6),
               ('K16', 'cross', 4),
               ('K1', 'std', 3),
